@@ -14,14 +14,15 @@ structure Res (s : Sess) (r : Sess × SState) (n : Int) (W q : List OutMsg) (t' 
   w : wl r.1 = wl s ++ W
   q : r.1.toSend = q
   nx : r.2 = nx
+  grow : Grow true s.store r.1.store
 
 theorem Res.of_eff {s s1 : Sess} {n : Int} {W q : List OutMsg} (h : Eff s s1 n W q) (nx : SState) :
-    Res s (s1, nx) n W q s.store.target nx := ⟨h.fr, h.tgt, h.snd, h.w, h.q, rfl⟩
+    Res s (s1, nx) n W q s.store.target nx := ⟨h.fr, h.tgt, h.snd, h.w, h.q, rfl, h.grow⟩
 
 theorem Res.of_eff_incr {s s1 : Sess} {n : Int} {W q : List OutMsg} (h : Eff s s1 n W q) (nx : SState) :
     Res s (incrTarget s1, nx) n W q (s.store.target + 1) nx :=
   ⟨h.fr.trans (fr_incrTarget s1), by simp [incrTarget, Sess.emit, Sess.setTarget, h.tgt], h.snd,
-    by rw [show wl (incrTarget s1) = wl s1 from wl_emit _ _ (by intro _; simp)]; exact h.w, h.q, rfl⟩
+    by rw [show wl (incrTarget s1) = wl s1 from wl_emit _ _ (by intro _; simp)]; exact h.w, h.q, rfl, h.grow.target _⟩
 
 /-- a Logon as an engine with configuration `cfg` composes it -/
 def IsLogon (cfg : Cfg) (m : OutMsg) : Prop := m.kind = "A" ∧ (cfg.bs = 5 → cfg.applVer ≠ "" → m.f.has 1137 = true)
@@ -138,7 +139,7 @@ theorem handleLogon_pool {c : Ctx} (hc : CtxOK c) {s : Sess} (hs : s.cfg = c.cfg
       have := hx.trans a2
       simp only [Int.add_zero, List.append_nil] at this
       have hq : x.toSend = q0 := hx.q
-      exact ⟨this.fr, this.tgt, this.snd, this.w, by rw [this.q]; exact hq⟩
+      exact ⟨this.fr, this.tgt, this.snd, this.w, by rw [this.q]; exact hq, this.grow⟩
     refine ⟨x4, e4, ?_⟩
     rw [checkTooHigh_pool hc hw, e4.tgt]
     by_cases h2 : m.seq > s.store.target
@@ -189,7 +190,7 @@ theorem res_logonFix {c : Ctx} (hc : CtxOK c) {s : Sess} (hs : s.cfg = c.cfg) {m
     rw [e1.fr.cfg] at e2 hfx
     rw [hfx]
     have e3 := e1.trans e2
-    refine ⟨e3.fr, e3.tgt, e3.snd, ?_, ?_, rfl⟩
+    refine ⟨e3.fr, e3.tgt, e3.snd, ?_, ?_, rfl, e3.grow⟩
     · show wl (sendInReplyTo s1 _) = _
       rw [e3.w]; simp
     · show (sendInReplyTo s1 _).toSend = _
@@ -216,7 +217,7 @@ theorem eff_resendMessages (s : Sess) (b e : Int) (hl : s.st.loggedOn = true) (h
     rw [enqAll_out s m rest ho]
     have hk : s.keptQueue = s.toSend := by simp [Sess.keptQueue, hl]
     rw [hk]
-    exact ⟨⟨rfl, rfl, rfl, rfl, rfl⟩, rfl, by show s.store.sender = _; omega, wl_wrote _ _, rfl⟩
+    exact ⟨⟨rfl, rfl, rfl, rfl, rfl⟩, rfl, by show s.store.sender = _; omega, wl_wrote _ _, rfl, Grow.refl _ _⟩
 
 /-- a ResendRequest of the peer (numbered at or above the expected number) reaches a logged-on engine: the replay of
     the clipped range goes out; the request's own number is consumed iff it is the expected one -/
@@ -304,7 +305,7 @@ theorem res_gapFill {c : Ctx} (hc : CtxOK c) {s : Sess} (hs : s.cfg = c.cfg) (b 
   have ht : (s.emit (cbObs s (toIn c.pcfg (gapFill b' e')))).store.target = s.store.target := rfl
   have hgt : e' > (s.emit (cbObs s (toIn c.pcfg (gapFill b' e')))).store.target := by rw [ht]; omega
   rw [if_pos hgt]
-  refine ⟨⟨rfl, rfl, rfl, rfl, rfl⟩, rfl, by show s.store.sender = _; omega, ?_, rfl, rfl⟩
+  refine ⟨⟨rfl, rfl, rfl, rfl, rfl⟩, rfl, by show s.store.sender = _; omega, ?_, rfl, rfl, Grow.target (Grow.refl true s.store) e'⟩
   show wl (((s.emit _).setTarget e').emit _) = _
   rw [wl_emit _ _ (by intro _; simp)]
   show wl (s.emit _) = _
@@ -333,17 +334,17 @@ theorem res_resendFix {s : Sess} {im : InMsg} {n : Int} {W q : List OutMsg} {t' 
   unfold resendFixMsgIn
   generalize inSessionFixMsgIn s im = r at h
   obtain ⟨s', nx⟩ := r
-  obtain ⟨hfr, htg, hsn, hw, hq, hnx⟩ := h
-  simp only [] at hfr htg hsn hw hq hnx ⊢
+  obtain ⟨hfr, htg, hsn, hw, hq, hnx, hgr⟩ := h
+  simp only [] at hfr htg hsn hw hq hnx hgr ⊢
   subst hnx
   simp only [SState.loggedOn, Bool.not_true, Bool.false_eq_true, if_false, bne_self_eq_false, Bool.false_and, Bool.and_false]
   rw [htg]
   by_cases hf : fin ≥ t'
   · simp only [hf, if_true]
-    exact ⟨hfr, htg, hsn, hw, hq, rfl⟩
+    exact ⟨hfr, htg, hsn, hw, hq, rfl, hgr⟩
   · simp only [hf, if_false]
     simp only [drainStash, List.length_nil, List.find?_nil]
-    exact ⟨hfr, htg, hsn, hw, hq, rfl⟩
+    exact ⟨hfr, htg, hsn, hw, hq, rfl, hgr⟩
 
 /-- what one event did to an engine, as far as the resynchronisation is concerned -/
 structure StepIs (s : Sess) (e : Ev) (st' : SState) (t' n : Int) (W q : List OutMsg) (o : Bool) : Prop where
@@ -353,6 +354,7 @@ structure StepIs (s : Sess) (e : Ev) (st' : SState) (t' n : Int) (W q : List Out
   w : wiresOf (step s e).2.1 = W
   q : (step s e).1.toSend = q
   out : (step s e).1.out = o
+  grow : Grow true s.store (step s e).1.store
 
 theorem connected_sessionTime {st : SState} (h : st.connected = true) : st.sessionTime = true := by
   cases st <;> simp_all [SState.connected, SState.sessionTime]
@@ -380,11 +382,11 @@ theorem stepIs_incoming (s : Sess) (im : InMsg) (hcon : s.st.connected = true) {
     rfl
   generalize fixMsgInCore s.clearLog im = r at hr hstep
   obtain ⟨s1, nx1⟩ := r
-  obtain ⟨hfr, htg, hsn, hw, hq, hn⟩ := hr
-  simp only [] at hfr htg hsn hw hq hn hstep
+  obtain ⟨hfr, htg, hsn, hw, hq, hn, hgr⟩ := hr
+  simp only [] at hfr htg hsn hw hq hn hgr hstep
   have hwl : wl s1 = W := by rw [hw]; simp [wl, Sess.clearLog, wiresOf]
   refine ⟨by rw [hstep]; rfl, by rw [hstep]; exact htg, by rw [hstep]; exact hsn, ?_, by rw [hstep]; exact hq,
-    by rw [hstep]; exact hfr.out⟩
+    by rw [hstep]; exact hfr.out, by rw [hstep]; exact hgr⟩
   rw [hstep]
   show wiresOf ((Obs.armPeer _ :: s1.log).reverse) = W
   rw [List.reverse_cons, wiresOf_append, ← hwl]
@@ -402,7 +404,8 @@ theorem stepIs_flush (s : Sess) (hl : s.st.loggedOn = true) (ho : s.out = true) 
     simp [this]
   have e := eff_sendQueued s.clearLog (show s.clearLog.out = true from ho)
   refine ⟨by rw [hstep]; exact e.fr.st, by rw [hstep]; exact e.tgt, by rw [hstep]; show (sendQueued s.clearLog).store.sender = _; rw [e.snd]; rfl,
-    ?_, by rw [hstep]; exact e.q, by rw [hstep]; show (sendQueued s.clearLog).out = true; rw [e.fr.out]; exact ho⟩
+    ?_, by rw [hstep]; exact e.q, by rw [hstep]; show (sendQueued s.clearLog).out = true; rw [e.fr.out]; exact ho,
+    by rw [hstep]; exact e.grow⟩
   rw [hstep]
   show wl (sendQueued s.clearLog) = s.toSend
   rw [e.w]; simp [wl, Sess.clearLog, wiresOf]
@@ -424,7 +427,8 @@ theorem stepIs_connect {s : Sess} (hst : s.st = .latent) (hnr : NoResetCfg s.cfg
       unfold step stepCore connect
       have : s.clearLog.openConn.cfg.initiator = false := hi
       simp [hcon, hses, this]
-    exact ⟨by rw [hstep]; rfl, by rw [hstep]; rfl, by rw [hstep]; show s.store.sender = _; omega, by rw [hstep]; rfl, by rw [hstep]; rfl, by rw [hstep]; rfl⟩
+    exact ⟨by rw [hstep]; rfl, by rw [hstep]; rfl, by rw [hstep]; show s.store.sender = _; omega, by rw [hstep]; rfl, by rw [hstep]; rfl, by rw [hstep]; rfl,
+      by rw [hstep]; exact Grow.refl _ _⟩
   · left
     refine ⟨rfl, ?_⟩
     generalize hx : (if s.clearLog.openConn.cfg.refreshOnLogon = true then s.clearLog.openConn.emit Obs.refresh else s.clearLog.openConn) = x
@@ -447,7 +451,8 @@ theorem stepIs_connect {s : Sess} (hst : s.st = .latent) (hnr : NoResetCfg s.cfg
     · have := isLogon_logonMsg x x.store.sender; rw [hxc] at this; exact this
     · show x.store.sender = _; rw [ex.snd]; show s.store.sender + 0 = _; omega
     · refine ⟨by rw [hstep]; rfl, by rw [hstep]; exact e3.tgt, by rw [hstep]; show (dropAndSend x _).store.sender = _; rw [e3.snd]; show s.store.sender + _ = _; omega,
-        ?_, by rw [hstep]; exact e3.q, by rw [hstep]; show (dropAndSend x _).out = true; rw [e3.fr.out]; rfl⟩
+        ?_, by rw [hstep]; exact e3.q, by rw [hstep]; show (dropAndSend x _).out = true; rw [e3.fr.out]; rfl,
+        by rw [hstep]; exact e3.grow⟩
       rw [hstep]
       show wl (dropAndSend x (logonMsg x false)) = _
       rw [e3.w]; simp [wl, Sess.clearLog, Sess.openConn, wiresOf]
